@@ -241,31 +241,6 @@ def mode_class(mode):
     return 'partial' if mode.startswith('partial') else mode
 
 
-def dump_rock(path):
-    """Slot table of a rock db file (replay aid): slot, key prefix, entrySize, payloadSize, version, firstSlot, nextSlot."""
-    import struct
-    out = []
-    try:
-        with open(path, 'rb') as f:
-            f.seek(16384)
-            i = 0
-            while True:
-                b = f.read(cs.ROCK_SLOT)
-                if len(b) < cs.ROCK_HDR:
-                    break
-                k0, k1, esz, psz, ver, first, nxt = struct.unpack('<QQQIIii', b[:cs.ROCK_HDR])
-                if first or nxt or psz:
-                    body = b[cs.ROCK_HDR:cs.ROCK_HDR + psz]
-                    import re
-                    tags = sorted(set(t.decode() for t in re.findall(rb'X-V: (u[0-9]+-v[0-9]+)', body)))
-                    out.append('slot %2d key %016x entrySize %6d payload %5d version %d first %2d next %2d %s' % (
-                        i, k0, esz, psz, ver, first, nxt, ' '.join(tags)))
-                i += 1
-    except OSError as e:
-        out.append('cannot read %s: %s' % (path, e))
-    return out
-
-
 def run_case(ctx, shard, case, info, dump=False):
     """One execution = one choice (store, n, mode).  Returns dict(transcript, outcome, violations[(key, what)], ...)."""
     store, n, mode = case['store'], case['n'], case['mode']
@@ -298,7 +273,7 @@ def run_case(ctx, shard, case, info, dump=False):
         kbase = '%s:%s-%s' % (store, mode_class(mode), m['cls'])
         if dump and store == 'rock':
             print('rock db after the crash:')
-            for l in dump_rock(os.path.join(cw.sq.cache_path, 'rock')):
+            for l in cs.dump_rock(os.path.join(cw.sq.cache_path, 'rock'), cs.ROCK_SLOT):
                 print('  ' + l)
         rr = cw.restart()
         hits = misses = 0
